@@ -183,6 +183,18 @@ pub fn run(ctx: &Ctx) -> Report {
             }
         }
     }
+    // requests that a registry keyed by a concatenation of their parts would take for one
+    let twins = crate::combo::concat_twin_trees();
+    let tw = run_shards(16, |shard| {
+        let mut st = Stats::new();
+        for (i, t) in twins.iter().enumerate().filter(|(i, _)| i % 16 == shard) {
+            let v = { let c = Case { tree: t.clone(), files: vec![], threads: None, via_text: false }; let (v, n) = judge_with(&c, true); executions.fetch_add(n, std::sync::atomic::Ordering::Relaxed); v };
+            st.record(&v, stable_hash(t), true, || case_json(&Case { tree: t.clone(), files: vec![], threads: None, via_text: false }));
+        }
+        st.samples.truncate(1);
+        st
+    });
+    total.merge(tw);
     // interaction triples: three leaf kinds under every operator skeleton, each on its directed file set
     let tr = crate::combo::run_triples(
         ctx.seed,
